@@ -244,6 +244,15 @@ def parseToken {V} (S : Sem V) (t0 : Tok) (opd : List V) (opt : List Tok) :
 
 /-! ## evalInfixExp -/
 
+/-- `formulaArrayConst`: an array constant under evaluation (repository fix 9c11688: the open
+constants are a stack; before it two booleans and one depth) -/
+structure ArrC (V : Type) where
+  /-- `opfStack.Len()` where the constant was opened -/
+  depth : Nat
+  inRow : Bool := false
+  rows : List (List V) := []
+  row : List V := []
+
 structure St (V : Type) where
   opd : List V := []
   opt : List Tok := []
@@ -251,13 +260,19 @@ structure St (V : Type) where
   opfd : List V := []
   opft : List Tok := []
   args : List (List V) := []
-  inArray : Bool := false
-  inArrayRow : Bool := false
-  arr : List (List V) := []
-  arrRow : List V := []
-  /-- `arrayDepth`: `opfStack.Len()` where the open array constant started (repository fix
-  fecba5e: only tokens at that depth belong to the array constant) -/
-  arrDepth : Nat := 0
+  /-- open array constants, innermost first -/
+  arrs : List (ArrC V) := []
+
+/-- `array()`: the innermost open array constant, if it was opened at the current depth of the
+function stack -/
+def curArr {V} (st : St V) : Option (ArrC V) :=
+  match st.arrs with
+  | a :: _ => if a.depth == st.opf.length then some a else none
+  | [] => none
+
+def setCur {V} (st : St V) (a : ArrC V) : St V := { st with arrs := a :: st.arrs.tail }
+
+def popArr {V} (st : St V) : St V := { st with arrs := st.arrs.tail }
 
 /-- `for opftStack.Peek().(efp.Token) != opfStack.Peek().(efp.Token) { calculate…; opftStack.Pop() }`
 with the function separator `sep = opfStack.Peek()`.  A failing `calculate` puts an
@@ -375,7 +390,7 @@ def inFuncRest {V} (S : Sem V) (st : St V) (f t n : Tok) : Outcome (St V) :=
   if t.ty == .argument then
     -- column / row separators of an open array constant are not function arguments
     -- (repository fix 6963681; before it they flushed the operator stack like any argument)
-    if st.inArray && st.opf.length == st.arrDepth then .ok st else
+    if (curArr st).isSome then .ok st else
     match flushToSep S true f st.opft st.opfd st.args with
     | .err => .err
     | .panic => .panic
@@ -386,24 +401,50 @@ def inFuncRest {V} (S : Sem V) (st : St V) (f t n : Tok) : Outcome (St V) :=
         | .ok args' => .ok { st with opft := opft, opfd := rest, args := args' }
         | .err => .err
         | .panic => .panic
-  else if st.inArrayRow && st.opf.length == st.arrDepth && isOperand t then
-    match st.opfd with
-    | [] => .panic
-    | v :: rest => .ok { st with opfd := rest, arrRow := st.arrRow ++ [v] }
-  else if st.inArrayRow && st.opf.length == st.arrDepth && isFuncStop t then
-    .ok { st with arr := st.arr ++ [st.arrRow], inArrayRow := false }
-  else if st.inArray && st.opf.length == st.arrDepth && isFuncStop t then
-    match pushArg (S.mkMatrix st.arr) st.args with
-    | .ok args' => .ok { st with args := args', inArray := false }
-    | .err => .err
-    | .panic => .panic
-  else evalFunc S st t n
+  else
+  -- the array constant's own operands and stop tokens: not those of a function called inside it
+  match curArr st with
+  | some a =>
+    if a.inRow && isOperand t then
+      match st.opfd with
+      | [] => .panic
+      | v :: rest => .ok (setCur { st with opfd := rest } { a with row := a.row ++ [v] })
+    else if a.inRow && isFuncStop t then
+      .ok (setCur st { a with rows := a.rows ++ [a.row], inRow := false })
+    else if isFuncStop t then
+      match pushArg (S.mkMatrix a.rows) st.args with
+      | .ok args' => .ok (popArr { st with args := args' })
+      | .err => .err
+      | .panic => .panic
+    else evalFunc S st t n
+  | none => evalFunc S st t n
 
 /-- the `if opfStack.Len() > 0 { … }` block of the loop body, `f = opfStack.Peek()` -/
 def inFunc {V} (S : Sem V) (st : St V) (f t n : Tok) : Outcome (St V) :=
   match inFuncRef S st f t n with
   | some r => r
   | none => inFuncRest S st f t n
+
+/-- the loop body after the optional `parseToken` on the outer stacks: function start, array
+constant out of the function stack, in-function block -/
+def stepTail {V} (S : Sem V) (st : St V) (t n : Tok) : Outcome (St V) :=
+  if isFuncStart t then
+    if t.val == "ARRAY" then .ok { st with arrs := { depth := st.opf.length } :: st.arrs }
+    else if t.val == "ARRAYROW" then
+      match curArr st with
+      | some a => .ok (setCur st { a with inRow := true, row := [] })
+      | none => .ok st
+    else .ok { st with opf := t :: st.opf, args := [] :: st.args, opft := t :: st.opft }
+  else match st.opf with
+    | [] =>
+      -- array constant out of function stack: its stop tokens close the row and the array
+      -- (repository fix 07e33d8; before it the flags stayed set)
+      if isFuncStop t then
+        match curArr st with
+        | some a => if a.inRow then .ok (setCur st { a with inRow := false }) else .ok (popArr st)
+        | none => .ok st
+      else .ok st
+    | f :: _ => inFunc S st f t n
 
 /-- one iteration of the token loop of `evalInfixExp`; `n` is `tokens[i+1]` or the zero token -/
 def step {V} (S : Sem V) (st : St V) (t n : Tok) : Outcome (St V) :=
@@ -417,19 +458,7 @@ def step {V} (S : Sem V) (st : St V) (t n : Tok) : Outcome (St V) :=
   match r1 with
   | .err => .err
   | .panic => .panic
-  | .ok st =>
-  if isFuncStart t then
-    if t.val == "ARRAY" then .ok { st with inArray := true, arr := [], arrDepth := st.opf.length }
-    else if t.val == "ARRAYROW" then .ok { st with inArrayRow := true, arrRow := [], arrDepth := st.opf.length }
-    else .ok { st with opf := t :: st.opf, args := [] :: st.args, opft := t :: st.opft }
-  else match st.opf with
-    | [] =>
-      -- array constant out of function stack: its stop tokens close the row and the array
-      -- (repository fix 07e33d8; before it the flags stayed set)
-      if isFuncStop t then
-        if st.inArrayRow then .ok { st with inArrayRow := false } else .ok { st with inArray := false }
-      else .ok st
-    | f :: _ => inFunc S st f t n
+  | .ok st => stepTail S st t n
 
 /-- the final `for optStack.Len() != 0` loop; `none` = error -/
 def drain {V} (S : Sem V) : List Tok → List V → Option (List V)
